@@ -637,7 +637,7 @@ func TestC15Mirror(t *testing.T) {
 		runC15History(r, rng.Fork("replay"), 0, replayOps)
 		return
 	}
-	n := pick(48, 2400)
+	n := pick(120, 2400)
 	for i := 0; i < n; i++ {
 		hr := rng.Fork(fmt.Sprint(i))
 		if !mine(i) {
@@ -653,7 +653,7 @@ func TestC15Mirror(t *testing.T) {
 			r.Sample(strings.Join(s, " "))
 		}
 	}
-	for i := 0; i < pick(16, 300); i++ {
+	for i := 0; i < pick(40, 300); i++ {
 		hr := rng.Fork(fmt.Sprint("overlap", i))
 		if !mine(i) {
 			continue
